@@ -1,10 +1,49 @@
 """C13 — see DESIGN.md section 6."""
 from kv_engine import *
 import conc_engine
+import fmt_engine, re
 
 MODULE = "Feox.Props.C13"
 THEOREMS = ['Feox.C13.step_exact', 'Feox.C13.exact', 'Feox.C13.zero_when_empty', 'Feox.C13.insert_refused_changes_nothing', 'Feox.C13.reserve_within_limit', 'Feox.Kv.sweepAll_acc', 'Feox.Kv.doReopen_acc',
             'Feox.C13.limit_never_exceeded_concurrently', 'Feox.C13.concurrent_counter_exact', 'Feox.Conc.Reserve.step_inv']
+
+
+def recovery_stage(ctx, cov):
+    """accounting after recovery: devices holding two generations of a key with different value
+    lengths (and ordinary ones) are opened by the real store; memory_usage() and len() must equal
+    the footprints / number of the records the store itself lists as live (oracle on the
+    implementation alone) and the Lean reader's figures"""
+    ok, out = cargo_build(ctx, ["fmt"])
+    if not ok:
+        return
+    outs = fmt_engine.run_fmt(ctx, ["dupgen"], 6, ["workloads=%d" % (4 if ctx.tier == "quick" else 60), "mutations=8"])
+    n = bad = diff = 0
+    for o in outs:
+        if "crash" in o:
+            violation(ctx, "fmt harness (multi-generation images) did not finish: " + o["crash"], o["crash"], tag="crash")
+            continue
+        for op, im, mo in zip(o["ops"], o["impl"], o["model"]):
+            if not op.startswith("fmt recover") or not im.startswith("ok "):
+                continue
+            n += 1
+            recsize = int(op.split(" ")[-1])
+            m = re.search(r" n=(\d+) mem=(\d+) .*live=\[([^\]]*)\]", im)
+            if not m:
+                continue
+            lives = [t.split(":") for t in m.group(3).split(",") if t]
+            want = sum(recsize + len(t[0]) // 2 + int(t[3]) for t in lives)
+            if int(m.group(2)) != want or int(m.group(1)) != len(lives):
+                bad += 1
+                if bad <= 2:
+                    kept = fmt_engine.save_case(ctx, op, "recacc%d" % bad)
+                    violation(ctx, "after recovery memory_usage() = %s but the live records add up to %d (len() = %s, %d live records)" % (m.group(2), want, m.group(1), len(lives)),
+                              "# image (as it was before the open): see the path in the line below\n%s\n# implementation: %s\n# Lean reader   : %s\n" % (kept, im[:500], mo[:500]), tag="recacc")
+            elif re.findall(r" (n=\d+ mem=\d+)", im) != re.findall(r" (n=\d+ mem=\d+)", mo):
+                diff += 1
+    ctx.log("recovery accounting stage: %d recovered images, %d oracle failures, %d differences to the Lean reader" % (n, bad, diff))
+    cov["recovered_images"] = n
+    cov["recovery_accounting_failures"] = bad
+    conc_engine.accounting_stage(ctx, cov)
 
 
 def run(ctx):
@@ -13,4 +52,4 @@ def run(ctx):
         "json-patch/serde_json results, the wall clock and the key->clock-shard hash are inputs of the model (recorded per call by the harness)",
         "disk reads are assumed faithful here (C05/C10 cover the bytes)",
         "concurrent clause: checked on the scheduled interleavings of the conc engine only (harness oracle usage = sum of live footprints whenever all threads are parked or idle, and agreement with the Lean Conc system's figures); the bound 'usage never exceeds the limit under any interleaving' is proved on a model of the reservation loop (Feox.Conc.Reserve: load, weak compare-exchange with spurious failures, release; any threads, any order) whose sequential behaviour is tied by the kv engine's OutOfMemory paths - the loop itself is not driven concurrently against the model",
-    ], pre_finish=conc_engine.accounting_stage)
+    ], pre_finish=recovery_stage)
